@@ -506,7 +506,9 @@ def files_lie_below_their_root(F, res, rule="M10"):
         starts = allz = lens = False
         for g in gs:
             c = FL.short(g.get("callee") or "")
-            if c.rsplit("::", 1)[-1] in ("starts_with",) and g["allowed"] == [True] or c.rsplit("::", 1)[-1] == "strip_prefix" and g["allowed"] in (["Ok"], ["Continue"]):
+            # a prefix test on *paths* (component-wise); `str::starts_with` on the printed paths lets `/ws/app` claim the files of `/ws/app2`
+            is_path = c.startswith(("Path::", "PathBuf::")) or "path::Path" in (g.get("callee") or "")
+            if is_path and (c.rsplit("::", 1)[-1] in ("starts_with",) and g["allowed"] == [True] or c.rsplit("::", 1)[-1] == "strip_prefix" and g["allowed"] in (["Ok"], ["Continue"])):
                 starts = True
             if c.endswith("Iterator::all") and g["allowed"] == [True]:
                 allz = True
@@ -525,7 +527,8 @@ def files_lie_below_their_root(F, res, rule="M10"):
                             calls = {FL.short(callee(t2) or callee_def(t2) or "").rsplit("::", 1)[-1] for _b2, t2 in cf.calls()}
                             cmpl = any(s_.get("rv", {}).get("k") == "bin" and s_["rv"].get("op") in ("Gt", "Lt", "Ge", "Le") and
                                        is_len(cf, dc, s_["rv"]["a"]) and is_len(cf, dc, s_["rv"]["b"]) for _b3, _i3, s_ in cf.stmts() if s_.get("rv"))
-                            starts = starts or s2 or "starts_with" in calls or "strip_prefix" in calls
+                            pcalls = {FL.short(callee(t2) or callee_def(t2) or "") for _b2, t2 in cf.calls()}
+                            starts = starts or s2 or any(x.startswith(("Path::", "PathBuf::")) and x.rsplit("::", 1)[-1] in ("starts_with", "strip_prefix") for x in pcalls)
                             allz = allz or a2 or "all" in calls
                             lens = lens or l2 or cmpl
         return starts, allz, lens
